@@ -43,6 +43,9 @@ func (cl Serializer) EncodeDnsResponseWithParams(resp Response, request *dns.Msg
 
 	msg := &dns.Msg{}
 	msg.SetReply(request)
+	// Use DNS name compression as any DNS server does: the (up to 253-octet) query name is
+	// otherwise repeated in full in every answer record and counts against the answer size
+	msg.Compress = true
 	err = util.WrapDnsResponse(msg, []byte(data), qt, cl.Domain)
 	return msg, err
 }
